@@ -5,7 +5,7 @@ ID = 'C02'
 FUNCTIONS = [('typing', 'electrical_signal.__call__'), ('typing', 'electrical_signal.w'), ('typing', 'electrical_signal.fs'),
              ('typing', 'electrical_signal.power'), ('typing', 'electrical_signal.abs'), ('typing', 'electrical_signal.t'),
              ('typing', 'electrical_signal.dt'), ('typing', 'electrical_signal.sps'), ('typing', 'global_variables.__call__')]
-BOUNDS = {'lengths': 'N in {1,2,3,4,5,6,8} (quick: {1,2,3,4,5,8}); exact twiddle factors in Q(sqrt2, sqrt3, sqrt5, sin36, sin72)',
+BOUNDS = {'lengths': 'N in {1,2,3,4,5,6,8,10,12} (quick: {1,2,3,4,5,8}); exact twiddle factors in Q(sqrt2, sqrt3, sqrt5, sin36, sin72)',
           'values': 'every complex sample of signal and noise symbolic; one and two polarisations; gv configured through the real gv(sps=.., R=..) / '
                     'gv(fs=.., R=..) with symbolic R (fs = R*sps, sps in 1..4)'}
 OUTSIDE = ['other lengths (7, 9, 11, ... need twiddle factors outside the exact field)', 'floating-point rounding of the FFT']
@@ -147,13 +147,15 @@ def scen_axis_power(env, cfg):
 def configs(tier):
     q = tier == 'quick'
     out = []
-    Ns = (1, 2, 3, 4, 5, 8) if q else (1, 2, 3, 4, 5, 6, 8)
+    Ns = (1, 2, 3, 4, 5, 8) if q else (1, 2, 3, 4, 5, 6, 8, 10, 12)
     for n in Ns:
         for cls, pol in (('es', 1), ('os', 2)) if q else (('es', 1), ('os', 1), ('os', 2)):
             for noise in (False, True):
                 if n == 8 and (pol == 2 or noise) and q:
                     continue
                 if n >= 6 and pol == 2 and noise:
+                    continue
+                if n >= 10 and (pol == 2 or noise):
                     continue
                 base = dict(n=n, pol=pol, noise=noise, cls=cls, sps=1 + n % 4, via='sps' if n % 2 else 'fs')
                 tag = f'{cls}{pol}-{"noise" if noise else "clean"}-n{n}'
